@@ -123,6 +123,10 @@ func vhC06PebbleAdmission() {
 	if radius.Eq(storage.MaxDistance) {
 		vsAssert((err == storage.ErrInsufficientRadius) == !below, "max-radius/refused-iff-distance-not-below-radius")
 		vsCover("max-radius")
+	} else if vhByteSymmetric(dist) {
+		// a distance that reads the same in both byte orders is outside known finding KF-C06-2
+		vsAssert((err == storage.ErrInsufficientRadius) == !below, "shrunk-radius/byte-symmetric-distance/refused-iff-distance-not-below-radius")
+		vsCover("byte-symmetric-distance")
 	} else {
 		// Region of known finding KF-C06-2: the store decodes key bytes little-endian.
 		vsAssert((err == storage.ErrInsufficientRadius) == !below, "shrunk-radius/refused-iff-distance-not-below-radius")
@@ -157,11 +161,18 @@ func vhC06PebbleRadius() {
 	}
 	vsCover("radius-shrunk")
 	rb := vhBE(r)
+	symmetric := vhByteSymmetric(rb)
 	for _, e := range s.kv.live {
 		if bytes.Equal(e.key, vhZeroKey) {
 			continue
 		}
-		// Region of known finding KF-C06-2 (little-endian decoding of the key bytes).
-		vsAssert(bytes.Compare(e.key, rb) <= 0, "retained-item-within-new-radius")
+		if symmetric {
+			// the radius was read off a key that is the same in both byte orders: outside KF-C06-2
+			vsAssert(bytes.Compare(e.key, rb) <= 0, "byte-symmetric-radius/retained-item-within-new-radius")
+			vsCover("byte-symmetric-radius")
+		} else {
+			// Region of known finding KF-C06-2 (little-endian decoding of the key bytes).
+			vsAssert(bytes.Compare(e.key, rb) <= 0, "retained-item-within-new-radius")
+		}
 	}
 }
